@@ -105,27 +105,4 @@ Proof.
   apply IH; [congruence|exact Hres].
 Qed.
 
-(* ---- styles: what a rendering of style i sees depends only on the operations applied to style i ---- *)
-Definition touches (i : nat) (o : stop) : bool := match o with SCustom j _ _ => Nat.eqb i j | _ => false end.
-
-Lemma nth_firstn {X} (l : list X) : forall j i, i < j -> nth_error (firstn j l) i = nth_error l i.
-Proof.
-  induction l as [|x r IH]; intros [|j] [|i] H; cbn; try reflexivity; try lia. apply IH. lia.
-Qed.
-Lemma nth_skipn {X} (l : list X) : forall n i, nth_error (skipn n l) i = nth_error l (n + i).
-Proof. induction l as [|x r IH]; intros [|n] i; cbn; try reflexivity; [destruct i; reflexivity|apply IH]. Qed.
-
-Lemma style_step_other sts o i : i < length sts -> touches i o = false ->
-  nth_error (fst (style_step sts o)) i = nth_error sts i.
-Proof.
-  intros Hi Ht. destruct o as [p|j f v|j]; cbn [style_step fst].
-  - now rewrite nth_error_app1.
-  - destruct (nth_error sts j) as [s|] eqn:E; [|reflexivity].
-    cbn in Ht. apply Nat.eqb_neq in Ht.
-    assert (j < length sts) as Hj by (apply nth_error_Some; congruence).
-    destruct (Nat.lt_ge_cases i j).
-    + rewrite nth_error_app1 by (rewrite firstn_length; lia). apply nth_firstn; lia.
-    + rewrite nth_error_app2 by (rewrite firstn_length; lia). rewrite firstn_length, Nat.min_l by lia.
-      destruct (i - j) as [|k] eqn:Ek; [lia|]. cbn [nth_error]. rewrite nth_skipn. f_equal. lia.
-  - reflexivity.
-Qed.
+(* the style clause: Proofs/AppStateStyleLemmas.v (the heap of style objects refines independent values) *)
